@@ -212,6 +212,14 @@ pub struct GlobalEnvironment {
     slots: Vec<VCell>,
 }
 
+#[cfg(marwood_verif)]
+impl GlobalEnvironment {
+    /// (symbol heap index, slot) pairs (verification hook)
+    pub fn verif_bindings(&self) -> Vec<(usize, usize)> {
+        self.bindings.iter().map(|(k, v)| (*k, *v)).collect()
+    }
+}
+
 impl GlobalEnvironment {
     pub fn new() -> GlobalEnvironment {
         GlobalEnvironment {
